@@ -217,6 +217,34 @@ var pluginFiles = map[string]string{
 
 func URI(rel string) string { return "file://" + encodePath(Abs(rel)) }
 
+// spellURI spells the document URI of a message the way op.Spell says. All spellings name the same
+// document: the server's URI conversion decodes percent-escapes and turns backslashes into slashes.
+func spellURI(op *Op) string {
+	abs := Abs(op.Path)
+	below := strings.TrimPrefix(abs, Root)
+	if op.Spell == 0 || below == abs {
+		if op.Spell == 1 && !strings.ContainsAny(abs, "%+") {
+			return "file://" + abs
+		}
+		return URI(op.Path)
+	}
+	switch op.Spell {
+	case 1:
+		if strings.ContainsAny(abs, "%+") {
+			return URI(op.Path)
+		}
+		return "file://" + abs
+	case 2:
+		return "file://" + encodePath(Root) + strings.ReplaceAll(encodePath(below), "/", "%5C")
+	case 3:
+		if strings.ContainsAny(abs, "%+") {
+			return URI(op.Path)
+		}
+		return "file://" + Root + strings.ReplaceAll(below, "/", "\\")
+	}
+	return URI(op.Path)
+}
+
 // ViewURI is the key under which the diagnostics of a file are kept in RunResult.View: the URI as
 // the server writes it (it does not percent-encode), decoded if it was encoded.
 func ViewURI(rel string) string { return "file://" + Abs(rel) }
@@ -558,7 +586,7 @@ func (e *Engine) exec(i int, op *Op) {
 		d, ok := simfs.Content(Abs(op.Path))
 		e.Saved[op.Path] = ok && string(d) == string(text)
 		e.version[op.Path] = 1
-		e.sendRaw("textDocument/didOpen", map[string]interface{}{"textDocument": map[string]interface{}{"uri": URI(op.Path), "languageId": "lua", "version": 1, "text": string(text)}}, false, i)
+		e.sendRaw("textDocument/didOpen", map[string]interface{}{"textDocument": map[string]interface{}{"uri": spellURI(op), "languageId": "lua", "version": 1, "text": string(text)}}, false, i)
 		settle()
 	case "clear":
 		// select all + delete: one range edit from the start to the end of the buffer as it is now
@@ -598,7 +626,7 @@ func (e *Engine) exec(i int, op *Op) {
 		e.Saved[op.Path] = ok && string(d) == string(next)
 		e.Reverted[op.Path] = e.Saved[op.Path]
 		e.version[op.Path]++
-		e.sendRaw("textDocument/didChange", map[string]interface{}{"textDocument": map[string]interface{}{"uri": URI(op.Path), "version": e.version[op.Path]}, "contentChanges": changes}, false, i)
+		e.sendRaw("textDocument/didChange", map[string]interface{}{"textDocument": map[string]interface{}{"uri": spellURI(op), "version": e.version[op.Path]}, "contentChanges": changes}, false, i)
 		settle()
 	case "save":
 		cur, isOpen := e.Open[op.Path]
@@ -610,7 +638,7 @@ func (e *Engine) exec(i int, op *Op) {
 			if op.Text != nil {
 				cur = []byte(*op.Text)
 			}
-			e.sendRaw("textDocument/didSave", map[string]interface{}{"textDocument": map[string]interface{}{"uri": URI(op.Path)}, "text": string(cur)}, false, i)
+			e.sendRaw("textDocument/didSave", map[string]interface{}{"textDocument": map[string]interface{}{"uri": spellURI(op)}, "text": string(cur)}, false, i)
 			settle()
 			return
 		}
@@ -631,7 +659,7 @@ func (e *Engine) exec(i int, op *Op) {
 				e.queueEvent(op.Path, 1)
 			}
 		}
-		e.sendRaw("textDocument/didSave", map[string]interface{}{"textDocument": map[string]interface{}{"uri": URI(op.Path)}, "text": string(cur)}, false, i)
+		e.sendRaw("textDocument/didSave", map[string]interface{}{"textDocument": map[string]interface{}{"uri": spellURI(op)}, "text": string(cur)}, false, i)
 		settle()
 	case "close":
 		if _, isOpen := e.Open[op.Path]; !isOpen {
@@ -643,7 +671,7 @@ func (e *Engine) exec(i int, op *Op) {
 		delete(e.Saved, op.Path)
 		delete(e.External, op.Path)
 		delete(e.Reverted, op.Path)
-		e.sendRaw("textDocument/didClose", map[string]interface{}{"textDocument": map[string]interface{}{"uri": URI(op.Path)}}, false, i)
+		e.sendRaw("textDocument/didClose", map[string]interface{}{"textDocument": map[string]interface{}{"uri": spellURI(op)}}, false, i)
 		settle()
 	case "fswrite":
 		existed := simfs.Exists(Abs(op.Path))
